@@ -506,6 +506,12 @@ def _eval_aggregate(case):
                 sig = float(numpy.max(numpy.abs(rho - BZ.state_in_basis(Bm, pe)))) <= TOL_SIG
             else:
                 sig = _signature(rho, H0, Breq, start, T, subtract=sub)
+                if not sig and T == 0:
+                    # at T = 0 the library populates the first band state of the basis
+                    # it works in, whatever its energy
+                    Bm = numpy.eye(n) if Breq is None else Breq
+                    b = Bm[:, start]
+                    sig = float(numpy.max(numpy.abs(rho - numpy.outer(b, b.conj())))) <= TOL_SIG
         if sig and cond == "tes_weak":
             acc.add("basis/%s/exciton-populations-tagged-as-request-basis" % tag,
                     "T=%g: the matrix holds the exciton-basis Boltzmann populations but is "
